@@ -628,6 +628,15 @@ fn case_real(case: u64, rng: &mut Rng, rep: &mut Report) {
     rep.nontrivial(d.get());
 }
 
+/// one synthetic matrix through every arm (used by the memory-checker workload)
+pub fn synthetic_case(case: u64, rng: &mut Rng, rep: &mut Report, rows: usize, family: usize, plant_col: usize) {
+    match rng.below(3) {
+        0 => case_f32_c32(case, rng, rep, rows, family, plant_col),
+        1 => case_f32_c16(case, rng, rep, rows, family, plant_col),
+        _ => case_u8(case, rng, rep, rows, family, plant_col),
+    }
+}
+
 pub fn run(cfg: &Config) -> Report {
     // deterministic sweep: (row class x planted column) for f32 and u8, then random cases
     let sweep = (ROWS.len() * 32) as u64;
